@@ -156,6 +156,10 @@ Error BaseAssembler::embed(const void* data, size_t data_size) {
 }
 
 Error BaseAssembler::embed_data_array(TypeId type_id, const void* data, size_t item_count, size_t repeat_count) {
+  if (ASMJIT_UNLIKELY(!_code)) {
+    return report_error(make_error(Error::kNotInitialized));
+  }
+
   uint32_t deabstract_delta = TypeUtils::deabstract_delta_of_size(register_size());
   TypeId final_type_id = TypeUtils::deabstract(type_id, deabstract_delta);
 
